@@ -51,7 +51,7 @@ func newContLog() *contLog {
 // what came before it, as two sequences (received commands, sent replies); each sequence is written by one
 // goroutine, so its order is reliable (the relative order of the two is not).
 func (c *contLog) takeUntilPing() (recv, sent []string, ok bool) {
-	deadline := time.Now().Add(3 * time.Second)
+	deadline := time.Now().Add(30 * time.Second)
 	for time.Now().Before(deadline) {
 		c.mu.Lock()
 		var r, s []string
@@ -259,10 +259,20 @@ func runC10(res *Result, d *Driver, tier string, seed uint64) {
 			key := fmt.Sprintf("h%d s%d %s", h, step, line)
 			res.Case(key, strings.HasPrefix(line, "execve") || !apiOk, strings.Fields(line)[0]+"-"+strings.Fields(line)[len(strings.Fields(line))-1])
 			res.Traces++
-			if pingErr != nil || !okp {
+			if pingErr != nil {
 				res.Mismatch(Mismatch{Kind: "oracle", What: "environment unusable after a request/program-caused outcome (C10_usable_after_failures)", Input: desc + " [" + line + "]", Impl: fmt.Sprintf("Ping: %v; container stderr: %v", pingErr, cl.other), Oracle: "violates"})
 				dead = true
 				break
+			}
+			if !okp {
+				// the Ping succeeded: the environment is usable. Only the message logs of this step could not be collected
+				// (the log pipe lags behind under load): no statement about trace inclusion for this step, and no alarm
+				res.Dist["log-incomplete(step skipped)"]++
+				cl.mu.Lock()
+				cl.lines = nil
+				cl.mu.Unlock()
+				container.VerifTakeHostLog()
+				continue
 			}
 			hs, hr, cr, cs := compact(hSent), compact(hRecv), compact(cRecv), compact(cSent)
 			if strings.HasPrefix(line, "execve") { // the sync message is a plain reply carrying credentials
